@@ -14,6 +14,8 @@ import glob
 import importlib
 import json
 import logging
+import signal
+import threading
 import multiprocessing as mp
 import os
 import sys
@@ -50,7 +52,30 @@ def load_prop(pid):
 
 
 # --------------------------------------------------------------------------- one run
+class _RunWall(HarnessError):
+    pass
+
+
+def _on_alarm(signum, frame):
+    raise _RunWall("a single run exceeded its wall-clock safety net (not a verdict): "
+                   "some call into the library neither returned nor hit a step budget")
+
+
 def run_one(prop, plan) -> Kernel:
+    wall = float(os.environ.get("VERIF_RUN_WALL", "120"))
+    armed = False
+    if wall > 0 and threading.current_thread() is threading.main_thread():
+        signal.signal(signal.SIGALRM, _on_alarm)
+        signal.setitimer(signal.ITIMER_REAL, wall)
+        armed = True
+    try:
+        return _run_one(prop, plan)
+    finally:
+        if armed:
+            signal.setitimer(signal.ITIMER_REAL, 0)
+
+
+def _run_one(prop, plan) -> Kernel:
     k = Kernel(prop.ID, plan)
     core.set_current(k)
     CLOCK.reset()
